@@ -676,11 +676,20 @@ def run(repo: Repo, rep: Report, tier: str) -> None:
     n_prod = producers(repo, rep)
     n_cons = consumers(repo, rep)
     n_sites = decoder_sites(repo, rep)
+    from .c11 import rule_bp_polar_answers
+
+    rule_bp_polar_answers(repo, rep, rule="POLARITY-CONSUMER")
+    from ..speciallint import lint_logistic_overflow
+
+    thr_fis = [f for ci_ in repo.module(THR).classes.values() for f in ci_.methods.values()] + list(repo.module(THR).functions.values())
+    rep.floor("functions of the thresholding module scanned for overflowing logistic quotients", len(thr_fis), 20)
+    lint_logistic_overflow(rep, thr_fis, "LLR-RANGE", THR)
     rep.floor("soft-demodulator returns decided (producers)", n_prod, 9)
     rep.floor("thresholder / utility consumer returns", n_cons, 10)
     rep.floor("decoder decision sites", n_sites, 9)
     rep.decided_clauses += [
         "producers: LLR decreasing in dist to bit-0 subset, increasing in dist to bit-1 subset (closed form: increasing in the amplitude that carries bit 0)",
+        "LLR-to-probability conversions are not formed as exp(t) / (c + exp(t)) with unclamped t (NaN within the stated LLR range)",
         "consumers: decided bit / P(1) decreasing in the LLR (thresholders in LLR mode, repetition/ensemble delegation, sign_to_bin, llr_to_bits, decoder decision sites)",
     ]
     rep.undecided_clauses += ["numerical LLR values", "tie behaviour at LLR = 0"]
